@@ -170,6 +170,9 @@ pub struct ReadBack {
     pub zras: LGraph,
     /// `Zip::verify` of both zips
     pub verify: (bool, bool),
+    /// `iter_from(n / 2)` of the sequential and of the random-access labeling
+    pub from_seq: Vec<Vec<u64>>,
+    pub from_ra: Vec<Vec<u64>>,
 }
 
 macro_rules! read_back {
@@ -182,6 +185,12 @@ macro_rules! read_back {
                 let mut it = lab.iter();
                 while let Some((_x, ls)) = lender::Lender::next(&mut it) {
                     rb.lseq.push(ls.into_iter().collect::<Vec<u64>>());
+                }
+            }
+            {
+                let mut it = lab.iter_from($n / 2);
+                while let Some((_x, ls)) = lender::Lender::next(&mut it) {
+                    rb.from_seq.push(ls.into_iter().collect::<Vec<u64>>());
                 }
             }
             let z = Zip(seq, lab);
@@ -201,6 +210,12 @@ macro_rules! read_back {
             for x in 0..$n {
                 rb.lra.push(RandomAccessLabeling::labels(&rlab, x).collect::<Vec<u64>>());
                 rb.ldeg.push(RandomAccessLabeling::outdegree(&rlab, x));
+            }
+            {
+                let mut it = rlab.iter_from($n / 2);
+                while let Some((_x, ls)) = lender::Lender::next(&mut it) {
+                    rb.from_ra.push(ls.into_iter().collect::<Vec<u64>>());
+                }
             }
             let rz = Zip(ra, rlab);
             for x in 0..$n {
@@ -329,6 +344,7 @@ pub fn emit(out: &mut impl Write, id: &str, path: &str, c: &Conf, lg: &LGraph, c
         props_get(&o.lprops, "endianness").unwrap_or("?".into()),
         sanitize(&ser.name()), o.rstatus).unwrap();
     if o.rstatus == "ok" {
+        write!(out, " fromseq={} fromra={}", fmt_hexlists(&o.rb.from_seq), fmt_hexlists(&o.rb.from_ra)).unwrap();
         write!(out, " zseq={} lseq={} zra={} lra={} zras={} ldeg={} verify={}{} leftovers={}",
             fmt_lgraph(&o.rb.zseq), fmt_hexlists(&o.rb.lseq), fmt_lgraph(&o.rb.zra), fmt_hexlists(&o.rb.lra),
             fmt_lgraph(&o.rb.zras), fmt_ints(&o.rb.ldeg), o.rb.verify.0 as u8, o.rb.verify.1 as u8, o.leftovers).unwrap();
